@@ -23,17 +23,31 @@ import (
 // in replays. Only the methods the library calls from event-loop handlers are implemented; the rest
 // come from the embedded (nil) interface and would panic, which the engine reports.
 
+type vpStream struct {
+	network.Stream
+	proto protocol.ID
+	conn  *vpConn
+}
+
+func (s *vpStream) Protocol() protocol.ID { return s.proto }
+func (s *vpStream) Conn() network.Conn    { return s.conn }
+func (s *vpStream) Reset() error          { return nil }
+func (s *vpStream) Close() error          { return nil }
+
 type vpConn struct {
 	network.Conn
 	remote peer.ID
 	dir    network.Direction
+	proto  protocol.ID
 }
 
 func (c *vpConn) RemotePeer() peer.ID { return c.remote }
 func (c *vpConn) Stat() network.ConnStats {
 	return network.ConnStats{Stats: network.Stats{Direction: c.dir}}
 }
-func (c *vpConn) GetStreams() []network.Stream       { return nil }
+func (c *vpConn) GetStreams() []network.Stream {
+	return []network.Stream{&vpStream{proto: c.proto, conn: c}}
+}
 func (c *vpConn) RemoteMultiaddr() ma.Multiaddr      { return nil }
 func (c *vpConn) ID() string                         { return "conn-" + string(c.remote) }
 
@@ -41,6 +55,7 @@ type vpNetwork struct {
 	network.Network
 	connected map[peer.ID]bool
 	dir       map[peer.ID]network.Direction // direction of the (single) connection
+	proto     map[peer.ID]protocol.ID       // protocol of its pubsub stream
 }
 
 func (n *vpNetwork) Connectedness(p peer.ID) network.Connectedness {
@@ -54,7 +69,7 @@ func (n *vpNetwork) ConnsToPeer(p peer.ID) []network.Conn {
 	if !n.connected[p] {
 		return nil
 	}
-	return []network.Conn{&vpConn{remote: p, dir: n.dir[p]}}
+	return []network.Conn{&vpConn{remote: p, dir: n.dir[p], proto: n.proto[p]}}
 }
 
 func (n *vpNetwork) Peers() []peer.ID {
@@ -112,6 +127,11 @@ func (s *vpPeerstore) PrivKey(peer.ID) crypto.PrivKey                          {
 func (s *vpPeerstore) AddAddrs(p peer.ID, a []ma.Multiaddr, ttl time.Duration) {}
 func (s *vpPeerstore) Addrs(p peer.ID) []ma.Multiaddr                          { return nil }
 
+// vpAddrBook: no certified records (peer exchange then carries peer IDs only).
+type vpAddrBook struct{ peerstore.AddrBook }
+
+func (b *vpAddrBook) Addrs(p peer.ID) []ma.Multiaddr { return nil }
+
 type vpHost struct {
 	host.Host
 	id     peer.ID
@@ -149,7 +169,7 @@ func (b *vpBus) Subscribe(eventType interface{}, opts ...event.SubscriptionOpt) 
 
 func vpNewHost(id string) *vpHost {
 	return &vpHost{id: peer.ID(id),
-		net: &vpNetwork{connected: map[peer.ID]bool{}, dir: map[peer.ID]network.Direction{}},
+		net: &vpNetwork{connected: map[peer.ID]bool{}, dir: map[peer.ID]network.Direction{}, proto: map[peer.ID]protocol.ID{}},
 		cm:  &vpConnMgr{protected: map[peer.ID]map[string]bool{}, tags: map[peer.ID]map[string]int{}},
 		ps:  &vpPeerstore{}}
 }
@@ -277,6 +297,7 @@ func vpSmallParams() GossipSubParams {
 	p.Connectors = 0
 	p.MaxPendingConnections = 4
 	p.PrunePeers = 2
+	p.GossipFactor = 0 // gossip target = Dlazy (keeps the float product out of the queries; stated bound)
 	return p
 }
 
@@ -343,6 +364,12 @@ func vpNewNode(id string, cfg vpNodeCfg) *vpNode {
 	ctx, cancel := context.WithCancel(context.Background())
 	n.ps.ctx = ctx
 	n.cancel = cancel
+	if n.gs != nil {
+		n.gs.cab = &vpAddrBook{} // the real address book has been closed together with the library's goroutines
+	}
+	// the exiting event loop drops these maps (natively); give the instance fresh empty ones in both modes
+	n.ps.peers = make(map[peer.ID]*rpcQueue)
+	n.ps.topics = make(map[string]map[peer.ID]peerTopicState)
 	return n
 }
 
@@ -355,6 +382,7 @@ var vpProtos = []protocol.ID{FloodSubID, GossipSubID_v10, GossipSubID_v11, Gossi
 // calls the event loop makes (handlePendingPeers + newPeerStream case), minus the stream goroutines.
 func (n *vpNode) vpAddPeer(p peer.ID, proto protocol.ID, outbound bool) *rpcQueue {
 	n.h.net.connected[p] = true
+	n.h.net.proto[p] = proto
 	if outbound {
 		n.h.net.dir[p] = network.DirOutbound
 	} else {
